@@ -123,16 +123,19 @@ def _check_params(ctx, tag, uk, n):
 def _pc_shapes(tier):
     out = []
     for c in (False, True):
-        for n in (3, 4, 5, 6):
-            out.append(dict(n=n, dim=2, centripetal=c, sym='all' if n <= 5 else [1, 4], table='net'))
+        for n in (3, 4, 5):
+            out.append(dict(n=n, dim=2, centripetal=c, sym='all', table='net'))
+        out.append(dict(n=6, dim=2, centripetal=c, sym=[0, 5], table='net'))
         out.append(dict(n=4, dim=3, centripetal=c, sym='all', table='net'))
         out.append(dict(n=6, dim=3, centripetal=c, sym=[2], table='lattice'))
         out.append(dict(n=3, dim=2, centripetal=c, sym='free', table='net'))
+        out.append(dict(n=12, dim=2, centripetal=c, sym=[], table='lattice'))
     if tier == 'thorough':
         for c in (False, True):
-            out.append(dict(n=6, dim=2, centripetal=c, sym='all', table='net'))
             out.append(dict(n=3, dim=3, centripetal=c, sym='free', table='net'))
-            out.append(dict(n=8, dim=3, centripetal=c, sym=[0, 3, 7], table='lattice'))
+            out.append(dict(n=8, dim=3, centripetal=c, sym=[0, 7], table='lattice'))
+            out.append(dict(n=40, dim=3, centripetal=c, sym=[], table='lattice'))
+        out.append(dict(n=6, dim=2, centripetal=False, sym='all', table='net'))
     return out
 
 
@@ -179,10 +182,13 @@ def _grid(ctx, su, sv, sym, bump=()):
 
 
 def _ps_shapes(tier):
-    out = [dict(su=3, sv=3, centripetal=False, sym=[(1, 1)], table='plane'),
-           dict(su=3, sv=4, centripetal=True, sym=[(0, 0)], table='plane'),
-           dict(su=4, sv=3, centripetal=False, sym=[(0, 1), (3, 2)], table='net'),
-           dict(su=4, sv=4, centripetal=True, sym=[], table='net')]
+    out = []
+    for c in (False, True):
+        out += [dict(su=3, sv=3, centripetal=c, sym=[(1, 1)], bump=[]),
+                dict(su=4, sv=4, centripetal=c, sym=[(0, 0)], bump=[(2, 2)]),
+                dict(su=4, sv=3, centripetal=c, sym=[(0, 1), (3, 2)], bump=[])]
+    out.append(dict(su=5, sv=5, centripetal=False, sym=[], bump=[(1, 1), (3, 2)]))
+    out.append(dict(su=5, sv=6, centripetal=True, sym=[], bump=[]))
     return out
 
 
@@ -276,16 +282,32 @@ def knot_vector2(ctx, m, p, ncp):
 # interpolation
 # ------------------------------------------------------------------------------------------------
 def _ic_shapes(tier):
+    """the symbolic reach is set by the pivots of the real LU factorisation: each `/ u[i][i]` asks the solver to
+    show a polynomial in the sqrt atoms non-zero (the total-positivity fact of collocation matrices); it is decided
+    for the shapes below, not e.g. for 5 points / degree 3 with a symbolic middle point"""
     out = []
     for c in (False, True):
         for n in (3, 4):
             for p in range(1, n):
                 out.append(dict(n=n, p=p, dim=2, centripetal=c, sym='all', table='net'))
         out.append(dict(n=4, p=3, dim=3, centripetal=c, sym='all', table='net'))
-        for p in (1, 2, 3):
-            out.append(dict(n=5, p=p, dim=2, centripetal=c, sym=[2], table='lattice'))
+        out.append(dict(n=5, p=1, dim=2, centripetal=c, sym='all', table='net'))
+        out.append(dict(n=5, p=3, dim=2, centripetal=c, sym=[0], table='lattice'))
         out.append(dict(n=5, p=2, dim=2, centripetal=c, sym=[0, 4], table='net'))
+        out.append(dict(n=5, p=3, dim=3, centripetal=c, sym=[], table='lattice'))
         out.append(dict(n=6, p=3, dim=3, centripetal=c, sym=[], table='lattice'))
+        out.append(dict(n=9, p=2, dim=2, centripetal=c, sym=[], table='lattice'))
+    out.append(dict(n=5, p=2, dim=2, centripetal=False, sym='all', table='net'))
+    out.append(dict(n=5, p=2, dim=2, centripetal=False, sym=[2], table='lattice'))
+    out.append(dict(n=5, p=3, dim=2, centripetal=False, sym=[0, 4], table='net'))
+    out.append(dict(n=5, p=2, dim=2, centripetal=True, sym=[4], table='lattice'))
+    if tier == 'thorough':
+        for c in (False, True):
+            for n, p in ((8, 3), (12, 3), (20, 2), (40, 3)):
+                out.append(dict(n=n, p=p, dim=3, centripetal=c, sym=[], table='lattice'))
+            for p in (1, 2, 3):
+                out.append(dict(n=5, p=p, dim=2, centripetal=c, sym=[4], table='lattice'))
+                out.append(dict(n=6, p=p, dim=2, centripetal=c, sym=[0], table='lattice'))
     return out
 
 
@@ -313,12 +335,23 @@ def interp_curve(ctx, n, p, dim, centripetal, sym, table):
 
 
 def _is_shapes(tier):
-    out = [dict(su=3, sv=3, pu=2, pv=2, centripetal=False, sym=[(1, 1)], table='plane'),
-           dict(su=3, sv=3, pu=1, pv=2, centripetal=True, sym=[(0, 2)], table='plane'),
-           dict(su=3, sv=4, pu=2, pv=3, centripetal=False, sym=[], table='net'),
-           dict(su=4, sv=3, pu=3, pv=1, centripetal=False, sym=[(2, 1)], table='plane'),
-           dict(su=4, sv=4, pu=3, pv=3, centripetal=False, sym=[], table='net'),
-           dict(su=4, sv=4, pu=2, pv=3, centripetal=True, sym=[], table='plane')]
+    out = [dict(su=3, sv=3, pu=2, pv=2, centripetal=False, sym=[(1, 1)], bump=[]),
+           dict(su=3, sv=3, pu=1, pv=2, centripetal=False, sym=[(0, 0)], bump=[]),
+           dict(su=3, sv=4, pu=2, pv=3, centripetal=False, sym=[], bump=[(1, 1)]),
+           dict(su=4, sv=3, pu=3, pv=1, centripetal=False, sym=[(1, 1)], bump=[]),
+           dict(su=4, sv=4, pu=3, pv=3, centripetal=False, sym=[(1, 1)], bump=[]),
+           dict(su=4, sv=4, pu=2, pv=3, centripetal=False, sym=[(0, 0)], bump=[]),
+           dict(su=3, sv=3, pu=2, pv=2, centripetal=True, sym=[], bump=[(0, 0)]),
+           dict(su=3, sv=3, pu=1, pv=2, centripetal=True, sym=[(0, 0)], bump=[]),
+           dict(su=3, sv=4, pu=2, pv=3, centripetal=True, sym=[], bump=[]),
+           dict(su=4, sv=3, pu=3, pv=1, centripetal=True, sym=[], bump=[(0, 0)]),
+           dict(su=4, sv=4, pu=3, pv=3, centripetal=True, sym=[], bump=[]),
+           dict(su=4, sv=4, pu=2, pv=3, centripetal=True, sym=[], bump=[])]
+    if tier == 'thorough':
+        out += [dict(su=3, sv=3, pu=2, pv=2, centripetal=True, sym=[], bump=[(1, 1)]),
+                dict(su=4, sv=4, pu=2, pv=3, centripetal=False, sym=[(1, 1)], bump=[]),
+                dict(su=6, sv=7, pu=3, pv=2, centripetal=False, sym=[], bump=[]),
+                dict(su=7, sv=7, pu=3, pv=3, centripetal=True, sym=[], bump=[])]
     return out
 
 
@@ -361,15 +394,30 @@ def normal_equations(p, kv, uk, Q, ncp):
 
 
 def _ac_shapes(tier):
-    out = []
-    for c in (False, True):
-        out.append(dict(m=5, p=2, ncp=4, dim=2, centripetal=c, sym='all', table='net'))
-        out.append(dict(m=6, p=2, ncp=4, dim=2, centripetal=c, sym=[1, 4], table='lattice'))
-        out.append(dict(m=6, p=2, ncp=5, dim=3, centripetal=c, sym=[3], table='lattice'))
-        out.append(dict(m=6, p=3, ncp=5, dim=2, centripetal=c, sym=[2], table='net'))
-        out.append(dict(m=7, p=2, ncp=5, dim=2, centripetal=c, sym=[], table='net'))
-        out.append(dict(m=7, p=3, ncp=6, dim=3, centripetal=c, sym=[], table='lattice'))
-        out.append(dict(m=7, p=3, ncp=5, dim=2, centripetal=c, sym=[6], table='lattice'))
+    out = [dict(m=5, p=2, ncp=4, dim=2, centripetal=False, sym='all', table='net'),
+           dict(m=5, p=2, ncp=4, dim=2, centripetal=False, sym=[2], table='lattice'),
+           dict(m=6, p=2, ncp=4, dim=2, centripetal=False, sym=[0, 5], table='lattice'),
+           dict(m=6, p=2, ncp=5, dim=3, centripetal=False, sym=[2], table='lattice'),
+           dict(m=6, p=3, ncp=5, dim=2, centripetal=False, sym=[0, 5], table='lattice'),
+           dict(m=7, p=2, ncp=4, dim=2, centripetal=False, sym=[0, 6], table='lattice'),
+           dict(m=7, p=2, ncp=5, dim=2, centripetal=False, sym=[0, 6], table='lattice'),
+           dict(m=7, p=2, ncp=6, dim=2, centripetal=False, sym=[2], table='lattice'),
+           dict(m=7, p=3, ncp=5, dim=2, centripetal=False, sym=[0, 6], table='lattice'),
+           dict(m=7, p=3, ncp=6, dim=3, centripetal=False, sym=[0], table='lattice'),
+           dict(m=5, p=2, ncp=4, dim=2, centripetal=True, sym=[0, 4], table='lattice'),
+           dict(m=6, p=2, ncp=4, dim=2, centripetal=True, sym=[0], table='lattice'),
+           dict(m=6, p=2, ncp=5, dim=2, centripetal=True, sym=[0, 5], table='lattice'),
+           dict(m=6, p=3, ncp=5, dim=3, centripetal=True, sym=[0], table='lattice'),
+           dict(m=7, p=2, ncp=4, dim=2, centripetal=True, sym=[0, 6], table='lattice'),
+           dict(m=7, p=2, ncp=5, dim=2, centripetal=True, sym=[0, 6], table='lattice'),
+           dict(m=7, p=2, ncp=6, dim=2, centripetal=True, sym=[0, 6], table='lattice'),
+           dict(m=7, p=3, ncp=5, dim=2, centripetal=True, sym=[0, 6], table='lattice'),
+           dict(m=7, p=3, ncp=6, dim=3, centripetal=True, sym=[], table='lattice')]
+    if tier == 'thorough':
+        for c in (False, True):
+            out.append(dict(m=7, p=3, ncp=6, dim=2, centripetal=c, sym=[0, 6], table='lattice'))
+            for m, p, ncp in ((10, 3, 6), (20, 3, 9), (40, 3, 12), (40, 2, 39)):
+                out.append(dict(m=m, p=p, ncp=ncp, dim=3, centripetal=c, sym=[], table='lattice'))
     return out
 
 
@@ -403,9 +451,13 @@ def approx_curve(ctx, m, p, ncp, dim, centripetal, sym, table):
 
 
 def _as_shapes(tier):
-    out = [dict(su=5, sv=5, pu=2, pv=2, cu=4, cv=4, centripetal=False, sym=[(0, 0), (4, 4)], table='plane'),
-           dict(su=5, sv=6, pu=2, pv=3, cu=4, cv=5, centripetal=True, sym=[(4, 0)], table='plane'),
-           dict(su=6, sv=5, pu=3, pv=2, cu=5, cv=4, centripetal=False, sym=[], table='net')]
+    out = [dict(su=5, sv=5, pu=2, pv=2, cu=4, cv=4, centripetal=False, sym=[(0, 0)], bump=[]),
+           dict(su=5, sv=6, pu=2, pv=3, cu=4, cv=5, centripetal=False, sym=[(4, 0)], bump=[]),
+           dict(su=6, sv=6, pu=3, pv=3, cu=5, cv=5, centripetal=False, sym=[], bump=[]),
+           dict(su=5, sv=5, pu=2, pv=2, cu=4, cv=4, centripetal=True, sym=[], bump=[]),
+           dict(su=7, sv=6, pu=3, pv=2, cu=6, cv=4, centripetal=True, sym=[], bump=[])]
+    if tier == 'thorough':
+        out += [dict(su=5, sv=6, pu=2, pv=3, cu=4, cv=5, centripetal=True, sym=[(4, 0)], bump=[])]
     return out
 
 
